@@ -23,7 +23,7 @@ import pandas as pd
 from hypothesis import strategies as st
 
 from vf import frames as F
-from vf.core import Reject, Violation, canon_json, ensure
+from vf.core import Reject, Violation, canon_json, count, ensure
 
 # --------------------------------------------------------------------------
 # cases
@@ -250,6 +250,7 @@ class Env:
         self.side = side
         self.used_other = False
         self.used_root = False
+        self.others = []
         self.root = case.base if side == "pd" else case.ddf
 
     def other(self, e):
@@ -265,6 +266,7 @@ class Env:
         o = dd.from_pandas(obj, npartitions=e.get("n", 2), sort=True)
         if e.get("unknown"):
             o = o.clear_divisions()
+        self.others.append((o.npartitions, bool(o.known_divisions)))
         return o
 
 
@@ -376,7 +378,12 @@ def apply_op(obj, op, env):
     if k == "getcol":
         return obj[op["col"]]
     if k == "filter":
-        return obj[ev(obj, op["pred"], env)]
+        pred = ev(obj, op["pred"], env)
+        if not is_dask(pred) and getattr(pred, "dtype", None) == object:
+            # e.g. object-column .str.contains with missing values, or on zero rows: whether pandas reads an
+            # object-dtype key as a mask or as a list of labels depends on the data - outside the domain
+            raise Reject("object-dtype filter predicate")
+        return obj[pred]
     if k == "assign":
         return obj.assign(**{op["name"]: ev(obj, op["value"], env)})
     if k == "expr":
@@ -503,8 +510,13 @@ def gen_num(draw, schema, ctx, depth=0):
         rk = _sample(draw, ["lit", "lit", "col", "expr"])
         if op == "pow":
             r, rc = _lit(2), "int"
-        elif op in ("floordiv", "mod", "truediv") and ctx.get("nonzero_div"):
+            rk = "expr"
+        elif op in ("floordiv", "mod") or (op == "truediv" and ctx.get("nonzero_div")):
+            # integer // and % by zero: pandas' result dtype (int or float with inf) then depends on the data AND
+            # on the internal block layout of the frame (probe: -3 // df[["a","c"]] gives int64/float64 or
+            # float64/float64 for the same values) - only non-zero literal divisors are in the domain
             r, rc = _lit(_sample(draw, NZ_LITS)), "float"
+            rk = "expr"
         elif rk == "lit":
             v = _sample(draw, NUM_LITS)
             r, rc = _lit(v), ("int" if isinstance(v, int) else "float")
@@ -577,7 +589,7 @@ ASTYPE = {
 }
 DT2CLS = {
     "float64": "float", "float32": "float", "int32": "int", "int64": "int", "Int64": "Int64", "Float64": "Float64",
-    "boolean": "boolean", "object": "other", "str": "str", "category": "cat", "datetime64[s]": "dt",
+    "boolean": "boolean", "object": "other", "str": "str", "category": "ucat", "datetime64[s]": "dt",
 }
 
 
@@ -704,9 +716,15 @@ def gen_dt(draw, schema, ctx):
 
 
 def gen_cat(draw, schema, ctx):
+    # "ucat": categorical made by astype("category"), whose categories dask does not know lazily.  The
+    # dask docs require .cat.as_known()/categorize() before category-dependent operations on those, so
+    # only as_known is generated for them.
     cs = cols_of(schema, ("cat",))
-    if not cs:
+    ucs = cols_of(schema, ("ucat",))
+    if not cs and not ucs:
         return None
+    if not cs or (ucs and draw(st.booleans())):
+        return {"e": "acc", "x": _col(_sample(draw, ucs)), "acc": "cat", "m": "as_known"}
     x = _col(_sample(draw, cs))
     m = _sample(draw, ["as_known", "as_ordered", "add_categories", "rename_categories"])
     if m == "as_known":
@@ -725,7 +743,7 @@ def gen_any(draw, schema, ctx):
         kinds += ["str", "str", "str"]
     if cols_of(schema, ("dt",)):
         kinds += ["dt", "dt"]
-    if cols_of(schema, ("cat",)):
+    if cols_of(schema, ("cat", "ucat")):
         kinds += ["cat", "cat"]
     for _ in range(3):
         k = _sample(draw, kinds)
@@ -836,9 +854,12 @@ def gen_frame_op(draw, schema, ctx, last):
         fn = _sample(draw, ARITH + CMP)
         ok = _sample(draw, ["lit", "lit", "series", "other"])
         op = {"op": "frame_bin", "cols": cols, "fn": fn}
+        if fn in ("floordiv", "mod") or (fn == "truediv" and ctx.get("nonzero_div")):
+            ok = "lit"
         if ok == "lit" or fn in CMP and ok == "other":
-            op["other"] = _lit(_sample(draw, NZ_LITS if ctx.get("nonzero_div") and fn in ("floordiv", "mod", "truediv") else NUM_LITS))
-            op["reflected"] = draw(st.integers(0, 3)) == 0
+            nz = fn in ("floordiv", "mod") or (fn == "truediv" and ctx.get("nonzero_div"))
+            op["other"] = _lit(_sample(draw, NZ_LITS if nz else NUM_LITS))
+            op["reflected"] = (not nz) and draw(st.integers(0, 3)) == 0
             if draw(st.booleans()):
                 op["method"] = True
         else:
@@ -953,16 +974,16 @@ def _unknown_cat(meta_dtype):
     return isinstance(meta_dtype, pd.CategoricalDtype) and not known_categories(meta_dtype)
 
 
-def _relax_unknown_categories(got, want, meta, what, sig):
+def _relax_unknown_categories(got, want, meta, what, sig, cat_free=False):
     """Columns whose LAZY dtype is a categorical with *unknown* categories (dask's documented
     placeholder after e.g. ``astype('category')``: the categories are whatever the union of
     the per-partition categories turns out to be) are compared as: categorical on both sides,
-    same orderedness, same SET of categories, same values - the category *order* of such a
-    column is not promised (https://docs.dask.org/en/stable/dataframe-categoricals.html)."""
+    same orderedness, same values - the categories themselves (order, unused ones) of such a
+    column are not promised (https://docs.dask.org/en/stable/dataframe-categoricals.html)."""
     if isinstance(want, pd.DataFrame) and isinstance(got, pd.DataFrame) and isinstance(meta, pd.DataFrame):
         if list(got.columns) != list(want.columns) or list(meta.columns) != list(want.columns) or not want.columns.is_unique:
             return got, want
-        cols = [i for i, c in enumerate(want.columns) if _unknown_cat(meta.dtypes.iloc[i])]
+        cols = [i for i, c in enumerate(want.columns) if _unknown_cat(meta.dtypes.iloc[i]) or (cat_free and isinstance(meta.dtypes.iloc[i], pd.CategoricalDtype))]
         if not cols:
             return got, want
         got, want = got.copy(), want.copy()
@@ -970,7 +991,7 @@ def _relax_unknown_categories(got, want, meta, what, sig):
             c = want.columns[i]
             got[c], want[c] = _relax_series(got[c], want[c], f"{what} column {c!r}", sig)
         return got, want
-    if isinstance(want, pd.Series) and isinstance(got, pd.Series) and isinstance(meta, pd.Series) and _unknown_cat(meta.dtype):
+    if isinstance(want, pd.Series) and isinstance(got, pd.Series) and isinstance(meta, pd.Series) and (_unknown_cat(meta.dtype) or (cat_free and isinstance(meta.dtype, pd.CategoricalDtype))):
         return _relax_series(got, want, what, sig)
     return got, want
 
@@ -979,22 +1000,58 @@ def _relax_series(g, w, what, sig):
     if not (isinstance(g.dtype, pd.CategoricalDtype) and isinstance(w.dtype, pd.CategoricalDtype)):
         return g, w  # the ordinary comparison reports the dtype difference
     ensure(bool(g.dtype.ordered) == bool(w.dtype.ordered), f"{what}: orderedness differs", "categorical-ordered-mismatch", **sig)
-    ensure(
-        set(g.dtype.categories) == set(w.dtype.categories),
-        f"{what}: categories {list(g.dtype.categories)} vs pandas {list(w.dtype.categories)}",
-        "categories-mismatch",
-        **sig,
-    )
+    # not even the SET of categories is promised: the optimizer may move a filter in front of the
+    # astype('category'), after which unused categories never come into existence
     return g.astype(object), w.astype(object)
 
 
-def compare(got, want, meta=None, *, what="result", sig=None, **kw):
-    """F.assert_eq plus (a) the unknown-categories relaxation and (b) finer symptoms."""
+def _dtypes_of(x):
+    if isinstance(x, pd.DataFrame):
+        return list(x.dtypes)
+    if isinstance(x, (pd.Series, pd.Index)):
+        return [x.dtype]
+    return None
+
+
+def _empty_upcast_ok(got, want, meta):
+    """DESIGN 4.4/8.6: pandas' result dtype can depend on the data (str.len / dt.year / int
+    arithmetic with missing values -> float, ...).  When a partition is (or has become) empty
+    the partition-local pandas call yields the no-missing-values dtype, which is also what the
+    lazy meta announces.  Accepted only if every differing dtype equals dask's own lazy dtype."""
+    if kind_of(got) != kind_of(want) or kind_of(meta) != kind_of(got) or kind_of(got) == "scalar":
+        return False
+    dg, dw, dm = _dtypes_of(got), _dtypes_of(want), _dtypes_of(meta)
+    if not (len(dg) == len(dw) == len(dm)):
+        return False
+    diff = [i for i in range(len(dg)) if dg[i] != dw[i]]
+    return bool(diff) and all(dtype_agrees(dm[i], dg[i]) for i in diff)
+
+
+def compare(got, want, meta=None, *, what="result", sig=None, maybe_empty=False, cat_free=False, **kw):
+    """F.assert_eq plus (a) the unknown-categories relaxation, (b) the empty-partition dtype
+    relaxation (only when ``maybe_empty``: some partition was or may have become empty) and
+    (c) finer symptoms."""
     sig = dict(sig or {})
     if meta is not None:
-        got, want = _relax_unknown_categories(got, want, meta, what, sig)
+        # cat_free: the program used dask's ``.cat.as_known()`` (no pandas counterpart; it installs the
+        # categories in order of appearance) - category order then carries no pandas promise either
+        got, want = _relax_unknown_categories(got, want, meta, what, sig, cat_free)
     try:
-        F.assert_eq(got, want, what=what, sig=sig, **kw)
+        try:
+            F.assert_eq(got, want, what=what, sig=sig, **kw)
+        except Violation:
+            if not (maybe_empty and meta is not None and _empty_upcast_ok(got, want, meta)):
+                raise
+            kw2 = dict(kw)
+            kw2["check_dtype"] = False
+            try:
+                F.assert_eq(got, want, what=what, sig=sig, **kw2)
+            except Violation:
+                pass
+            else:
+                count("empty-partition-dtype-relaxed")
+                return
+            raise
     except Violation as v:
         msg = v.message
         sym = v.sig.get("symptom")
